@@ -482,6 +482,10 @@ class Gen:
                 if m > 0 and "cast-close" in lex[sig[m - 1]].tags:
                     lex[i] = Lx("/", "op", ("binop", "binop:/"))
                     self.tag("excluded:cast-paren-mult")
+                elif m >= 0 and m + 1 < len(sig) and "cast-open" in lex[sig[m + 1]].tags:
+                    # ((T *)x …) * y : the group begins with a cast — same misreading (finding C01|construct:ptrcast-group-mult)
+                    lex[i] = Lx("/", "op", ("binop", "binop:/"))
+                    self.tag("excluded:ptrcast-group-mult")
         return lex
 
     def cond(self, env, depth, budget):
@@ -963,7 +967,7 @@ class Gen:
             rtype = "void"
         elif rk == "ptr":
             rtype = d.choice(["char", "void", "int"])
-            stars = 1
+            stars = d.weighted([(10, 1), (1, 2), (1, 3)])
         else:
             rtype = d.choice(["long", "size_t", "unsigned int", "char", "double", "ssize_t"])
         rv = not (rtype == "void" and stars == 0)
@@ -1230,24 +1234,85 @@ class Gen:
             for _ in range(6):
                 env = Env()
                 rtype = d.choice(["int", "void", "char", "size_t", "long", "unsigned int"])
-                stars = 1 if d.bool(0.3) else 0
+                stars = d.weighted([(14, 0), (5, 1), (1, 2), (1, 3)])
                 name = self.fresh("fn", prefix=d.choice(["ft_", "", ""]), lo=2, hi=10)
                 npar = d.int(0, 4)
                 par = self.params(env, npar)
                 ty = ("static " if static_only else "") + rtype
                 dec = [Lx("*", "op", ("ptr-func",)) for _ in range(stars)] + [Lx(name, "id", ("func-name", "proto-name")), Lx("(", "par", ("params-open",))] + par + \
                     [Lx(")", "par", ("params-close",)), Lx(";", "semi")]
-                if len(ty) + 8 + self.width(dec) <= 72:
+                if len(ty) + 8 + self.width(dec) <= (72 if d.bool(0.8) else 110):     # wider ones are cut after a comma by emit_aligned
                     break
             self.funcs_known.append((name, npar))
             specs.append((ty, dec))
         return specs
+
+    def cut_prototype(self, lex, col):
+        """K4: a prototype cut after commas of its parameter list; continuation lines carry (name column / 4) + 1 tabs"""
+        depth = 0
+        cuts = []
+        for k, x in enumerate(lex):
+            if x.t == "(":
+                depth += 1
+            elif x.t == ")":
+                depth -= 1
+            elif x.k == "comma" and depth == 1:
+                cuts.append(k)
+        if not cuts:
+            return None
+        ind = TABS(col // 4 + 1)
+        pieces = []
+        cur = []
+        start = 0
+        last_cut = None
+        k = 0
+        # greedy: the longest prefix that fits, cut after a comma
+        rest = lex
+        first = True
+        while True:
+            prefix = [] if first else ind
+            if vwidth("".join(x.t for x in prefix + rest)) <= 80 and not (first and len(pieces) == 0):
+                pieces.append(prefix + rest)
+                break
+            cs = [j for j, x in enumerate(rest) if x.k == "comma" and self._depth_at(rest, j, first) == 1]
+            fit = [j for j in cs if vwidth("".join(x.t for x in prefix + rest[:j + 1])) <= 80]
+            if not fit:
+                return None
+            j = fit[-1] if not first or len(fit) == 1 else fit[self.d.int(0, len(fit) - 1)]
+            pieces.append(prefix + rest[:j + 1])
+            rest = rest[j + 1:]
+            if rest and rest[0].k == "sp":
+                rest = rest[1:]
+            first = False
+            if len(pieces) > 4:
+                return None
+        return pieces if len(pieces) >= 2 else None
+
+    @staticmethod
+    def _depth_at(lex, j, first):
+        # parenthesis depth at position j; continuation pieces start inside the parameter list (depth 1)
+        depth = 0 if first else 1
+        for x in lex[:j]:
+            if x.t == "(":
+                depth += 1
+            elif x.t == ")":
+                depth -= 1
+        return depth
 
     def emit_aligned(self, specs, kind, col=None, base=0):
         if col is None:
             col = self.align_col([len(t) for t, _ in specs], base)
         for ty, dec in specs:
             lex = self.type_lex(ty) + [Lx("\t", "tab", ("align",)) for _ in self.tabs_to(base + len(ty), col)] + dec
+            if kind == "proto" and (vwidth("".join(x.t for x in lex)) > 80 or self.d.bool(0.08)):
+                pieces = self.cut_prototype(lex, col)
+                if pieces:
+                    self.sid += 1
+                    sid = self.sid
+                    for n, piece in enumerate(pieces):
+                        self.emit(piece, "proto" if n == 0 else "pcont", 0, -1, sid, info={"type": ty, "K": "K4"})
+                    self.tag("K4")
+                    continue
             if vwidth("".join(x.t for x in lex)) > 80 and kind == "proto":
                 # too wide once aligned: fall back to a parameterless prototype of the same name
                 keep = []
